@@ -274,7 +274,7 @@ func (f *file) Write(p []byte) (n int, err error) {
 }
 
 func (f *file) WriteBlob(p blob.Blob) (n int, err error) {
-	if f.flag&hackpadfs.FlagAppend != 0 {
+	if f.flag&hackpadfs.FlagAppend != 0 && p.Len() > 0 {
 		// append mode always writes at the end and leaves the offset after the written bytes
 		f.offset = int64(f.Size())
 	}
